@@ -20,6 +20,11 @@ type harnessSpec struct {
 	testFunc      string
 	files         map[string]string // /verif-relative source -> /repo-relative destination
 	race          bool
+	// generations > 1: the wall budget is spent by that many successive sets of fresh worker
+	// processes (quick tier; three times as many in the thorough tier) instead of one set:
+	// what a process does only once (one-time initialisation of package-level state, first use
+	// of lazily filled caches) is then executed - under a different schedule - that many more times
+	generations int
 }
 
 // stageSpec is an additional harness stage of a property.
